@@ -114,6 +114,10 @@ func TestHuge(t *testing.T) {
 				for _, dl := range []int{0, 3, 40} {
 					core.RunCase(t, "huge", Huge{Limit: L, LenWord: lw, Type: tp, Delivered: dl, Pos: "session"}, RunHuge)
 				}
+				if lw >= 4 {
+					// (below the minimum there is no body: what follows the length word is legitimately the next message)
+					core.RunCase(t, "huge", Huge{Limit: L, LenWord: lw, Type: tp, Pos: "session", Smuggle: true}, RunHuge)
+				}
 			}
 			core.RunCase(t, "huge", Huge{Limit: L, LenWord: lw, Delivered: 8, Pos: "startup"}, RunHuge)
 		}
